@@ -64,11 +64,10 @@ func dfs(n *node, orig, path string, last bool) (*Template, bool) {
 
 	// then literal with verb if this is the last component
 	if slash == -1 {
-		var verb string
-
-		for verbIdx := strings.LastIndex(component, ":"); verbIdx != -1; verbIdx = strings.LastIndex(component, ":") {
-			verb, component = component[verbIdx+1:], component[:verbIdx]
-			if next := n.literals[component]; next != nil && next.verbs[verb] != nil {
+		// the verb is what follows the last colon, just like when a template is parsed
+		if verbIdx := strings.LastIndex(component, ":"); verbIdx != -1 {
+			verb, literal := component[verbIdx+1:], component[:verbIdx]
+			if next := n.literals[literal]; next != nil && next.verbs[verb] != nil {
 				return next.verbs[verb].tmpl, true
 			}
 		}
